@@ -1,5 +1,5 @@
 SPECIFICATION Spec
-CONSTANT Ns = {2, 3, 4, 5, 8, 9, 10, 11, 12, 13, 19, 20, 21, 22, 30, 99, 100, 101, 102, 111, 120}
+CONSTANT Ns = {2, 3, 4, 5, 9, 10, 11, 12, 13, 19, 20, 21, 30, 99, 100, 101, 102, 120}
 CONSTANT LongNs = {2, 3, 4}
 CONSTANT EmKinds = {"identity", "reversed", "rotated", "evenodd", "stride", "byname"}
 CONSTANT ProfKinds = {"asc", "desc", "zig", "pairs"}
